@@ -143,6 +143,9 @@ def run(idx, rep, tier):
         prod = f"{qn}@" in src
         rep.decide(True if prod else None, "eigs-pairing", "arnoldi_eigs:vectors", "Ritz vectors are Q times the eigenvectors of H", locs=[idx.loc(eigs.module, eigs.node)])
     buffer_dtype_obligations(idx, rep, init, "buffer-dtype")
+    # ---- HOMOG in the scale of the operator: floors inside the factorisation loop must scale with what they guard
+    from sa.homog import krylov_floor_obligations
+    krylov_floor_obligations(idx, rep, fact, init, "scale-floor")
     rep.floor("buffer-dtype", 2)
     rep.floor("loop-cap", 2)
     rep.floor("buffers", 2)
